@@ -213,8 +213,8 @@ var OrderInsensitive = map[string]bool{
 	"github.com/Syuparn/pangaea/object.keyHashes":          true, // sorts afterwards
 	"(*github.com/Syuparn/pangaea/object.PanObj).Inspect":  true, // sortedPairsString
 	"(*github.com/Syuparn/pangaea/object.PanObj).Repr":     true,
-	"(*github.com/Syuparn/pangaea/object.PanMap).Inspect":  true, // hashable pairs sorted; non-hashable pairs are a slice
-	"(*github.com/Syuparn/pangaea/object.PanMap).Repr":     true,
+	// (PanMap.Inspect / Repr were on this list until round 4: they sort by the PRINTED key, and two
+	// keys can print alike - 1.0000001 and 1.0000002 - so the order of ties did depend on the range)
 	"github.com/Syuparn/pangaea/di.toPairs":                true, // start-up, map -> map
 	"github.com/Syuparn/pangaea/di.mergePropContainers":    true, // start-up, map -> map
 }
